@@ -80,4 +80,15 @@ PROPS = {
                 "Non-trivial: the history damages a file that a previously stored (or planted) entry depends on, so that lookups run against the damaged state. Distinct by operation list.",
         "assumptions": ["GODEBUG is cleared by the driver (gocacheverify would change Get)", "the cache directory is writable (Put on a writable directory must succeed)"],
     },
+    "C13": {
+        "pkg": "c13_trim",
+        "level": "exploration",
+        "technique": "model-based stateful property test (rapid histories of Put/lookup/advance/Trim with time simulated by translating file mtimes and trim.txt); oracle = retention model with margins + before/after directory snapshots",
+        "level_text": "Histories of Put, Get/GetBytes/GetFile/OutputFile, Advance(dt), Trim, planted non-entry files and rewritten trim.txt (recent, old, future, garbage, missing) run against the real cache; virtual time advances by shifting every mtime and the trim record back. After each Trim a snapshot diff checks: no entry file used within 5 d is removed and such IDs stay readable; non-entry files untouched; nothing at all changes when the last trim is < 1 d old; when due, everything unused for > 5 d + 1 h is gone and trim.txt holds the current time.",
+        "level_note": "Trusted: the retention model; time translation is exact because the code only uses differences now-mtime and now-lastTrim (no clock hook); margins of 2 minutes absorb real elapsed time inside a case; grey zones (age between 5 d and 5 d + 1 h, record 0-1 h in the future, due-ness within the margin) assert only the safety clauses.",
+        "shards": {"quick": 4, "thorough": 16},
+        "rule": "history = 2-28 operations over 5 action IDs and 4 contents: put, get, getbytes, getfile, outputfile, advance by one of 15 durations (5 min ... 30 d incl. 59/61 min, 23/25 h, 5 d +- 5 min, 5 d 1 h +- 5 min), trim, plant a non-entry file (README, fuzz/..., foreign names in sub-directories, drawn age), rewrite trim.txt (missing, garbage, or now - offset incl. future offsets); plus 7 fixed scenarios from the statement. "
+                "Non-trivial: a history with >=1 due Trim that sees both a stale and a fresh entry file and >=1 lookup before it. Distinct by operation list.",
+        "assumptions": ["file use is modelled per file: Get refreshes the index file only, GetBytes/GetFile/OutputFile also the data file, Put both", "foreign files are never named *-a or *-d (those names are cache entries by definition)"],
+    },
 }
